@@ -91,6 +91,7 @@ def specCheck (prop : String) (op res : List String) : String :=
       | some enc => verdict (Spec.connectEncodeOk d enc) "Connect-Timeout-Ms sent to backend is invalid, exceeds the client's or is short by 1ms or more"
       | none => "fail unparsable result"
     | _, _ => "fail unparsable result"
+  | "C12", [op, h] => if op == "e2e" || op == "e2e_fresh" then specE2E "C12" h res else "nospec"
   | "C06", ["route", rules, path, method] =>
     match fromHex rules, fromHex path, fromHex method with
     | some rs, some p, some m =>
